@@ -331,6 +331,9 @@ def mk_cmp(op, a, b):
     if op in ("in", "not in") and a[0] == "c" and b[0] == "dict" and all(k[0] == "c" for k, _ in b[1]):
         r = any(k == a for k, _ in b[1])
         return C(r if op == "in" else not r)
+    # a regular-expression match object is falsy exactly when it is None
+    if b == NONE and op in ("is", "is not", "==", "!=") and a[0] == "mcall" and a[2] in ("match", "search", "fullmatch"):
+        return a if op in ("is not", "!=") else mk_not(a)
     # emptiness tests
     if a[0] == "call" and a[1] == "len" and len(a[2]) == 1 and b == C(0):
         if op == "==":
@@ -372,6 +375,9 @@ def renorm(v):
 
 
 def mk_sub(base, key):
+    # match.groupdict()[name] is match.group(name)
+    if base[0] == "mcall" and base[2] == "groupdict" and not base[3] and key[0] == "c":
+        return ("mcall", base[1], "group", (key,), ())
     if base[0] == "dict" and key[0] in ("c", "sym"):
         for k, val in base[1]:
             if k == key:
@@ -809,6 +815,10 @@ class AV:
             # the body returns r[2] for an element satisfying r[1]: the loop returns it if any element does
             if not (has(r[2], "bv") or has(r[2], "idx") or has(r[2], "first")):
                 pret = ("pret", ("call", "any", (mk_comp(d, it, (r[1],)),), ()), r[2])
+                r = _FALL
+            elif r[2][0] != "raise":
+                # the value of the first element that satisfies the condition
+                pret = ("pret", ("call", "any", (mk_comp(d, it, (r[1],)),), ()), ("sub", mk_comp(d, it, (r[2],), (r[1],)), C(0)))
                 r = _FALL
         jumps = "<jump>" in inner.env or not (r is _FALL or r is _CONT) or any(isinstance(n, ast.Break) for s_ in st.body for n in walk_no_nested(s_, include_self=True)) or (bool(st.orelse) and run_else)
         tnames = set(_target_names(st.target))
@@ -1314,6 +1324,8 @@ class AV:
             if name in ("range", "zip", "enumerate", "reversed", "sorted", "map", "filter", "sum", "min", "max", "any", "all", "int", "float", "bool", "repr", "abs", "round", "type", "getattr", "hasattr", "iter", "next", "set", "frozenset"):
                 if name == "range" and len(args) == 2 and args[0] == C(0):
                     args = (args[1],)
+                if name in ("zip", "enumerate", "reversed", "sorted", "map", "filter", "sum", "min", "max", "any", "all", "set", "frozenset", "iter"):
+                    args = tuple(_unwrap_seq(a) for a in args)
                 if name == "reduce":
                     pass
                 return ("call", name, tuple(args), tuple(sorted(kwargs)))
